@@ -1,4 +1,5 @@
 import J5V.Codec.DecodeProofs
+import J5V.Json.TokenProofs
 import J5V.Generated.CodecFacts
 /-!
 # C06 — the decoder is total: no input crashes, hangs or exhausts the stack
@@ -35,6 +36,12 @@ paths into every kind, repeated and empty value lists). -/
 theorem C06_query_no_panic (c : Cfg) (hc : c.env.itemsOk = true) (root : String)
     (kvs : List (Bytes × List Bytes)) : ∀ w, decodeQuery c root kvs ≠ .panic w :=
   decodeQuery_np c hc root kvs
+
+/-- the tokenizer model never runs out of fuel: its `length + 1` iterations always suffice (every
+`Token()` call consumes at least one byte), so no document is mis-classified as failing because
+of the fuel bound -/
+theorem C06_tokenize_fuel_ok (bs : Bytes) : Item.fuel ∉ tokenize bs :=
+  tokenize_no_fuel bs
 
 /-- `scalarReflectFromGo` never panics, whatever token reaches it -/
 theorem C06_scalar_no_panic (O : Oracle) (k : ScalarKind) (t : GoTok) :
